@@ -155,8 +155,8 @@ CLEAN_DTYPES = {'npstartA_merge': 'i8', 'npstartB_merge': 'i8', 'npoutA_merge': 
 
 
 def gen_world(rng, max_slabs=4, max_halos=6, max_parts=4, want_clean=None, lc=False, halo_counts=None):
-    box = rng.choice([50.0, 500.0, 2000.0, 1185.0, 7.5])
-    vz = rng.choice([777.0, 123.0, 3200.0, 9001.5, 55.5])
+    box = rng.choice([50.0, 500.0, 2000.0, 1185.0, 7.5, 500, 2000])          # some headers carry ints
+    vz = rng.choice([777.0, 123.0, 3200.0, 9001.5, 55.5, 4000, 777])
     if vz == box:
         vz += 1.0
     nslab = 1 if lc else (len(halo_counts) if halo_counts else rng.randrange(1, max_slabs + 1))
